@@ -226,6 +226,8 @@ def run_property(ctx, out, prop, monitor_name, n_quick, n_thorough, gen_kw, dire
     from . import monitors as M
     monitor = getattr(M, monitor_name) if monitor_name else None
     reported = 0
+    # scenarios on which the property itself fails are reported first (they carry the concrete failing input)
+    bad.sort(key=lambda r: (0 if r.get("pf") else 1, r.get("steps", 0)))
     for r in bad[:4]:
         if "error" in r:
             out.violation("scenario could not be run: " + r["error"], {"property": prop, "broken": "correspondence machinery", "detail": r}, no_input=True)
